@@ -124,7 +124,9 @@ Proof. exact raised_then_stopstream_refuted_unpatched_l. Qed.
      flowvar_single_assignment: in every run the value of a bound FlowVar never changes.
    PROVED: the same statements for the cell machine that the interpreter delegates to
    (do_signal/do_unhang/do_flowset/AWait are cell_signal/cell_unhang/cell_flowset/cell_wait plus
-   enqueue_all, see signal_hands_over_to_scheduler). *)
+   enqueue_all, see signal_hands_over_to_scheduler), and for the queue: every routine handed over
+   has exactly ONE pending wake-up afterwards (one_pending_wakeup_per_routine) - wake-ups emitted
+   for a routine that is already queued are merged into one, they are not lost and not doubled. *)
 Theorem cond_resume_exactly_once_after_signal_partial :
   (forall (ops : list cop) (c : cell) (r : nat),
      (count_occ Nat.eq_dec (snd (crun ops c)) r + count_occ Nat.eq_dec (waiting (fst (crun ops c))) r
@@ -158,6 +160,21 @@ Theorem signal_hands_over_to_scheduler : forall c w x t, nth_error (cells w) c =
   (cell_test x = false -> fst (do_signal c w) = set_cell c x w /\ queue (fst (do_signal c w)) = queue w).
 Proof. exact do_signal_spec. Qed.
 
+(* the NRT scheduler keeps ONE pending wake-up per routine (clock.py ClockScheduler.add replaces the
+   previous entry): after sched r has exactly one, the others keep theirs; every routine handed over
+   by a signal / unhang / binding has exactly one pending wake-up afterwards, also when it already
+   had one (pause(); resume(), play) - so it resumes once, not twice; pops keep the invariant *)
+Theorem one_pending_wakeup_per_routine :
+  (forall t r q r', pend (enqueue t r q) r' = if Nat.eqb r r' then 1%nat else pend q r') /\
+  (forall t rs q r, In r rs -> pend (enqueue_all t rs q) r = 1%nat) /\
+  (forall t rs q r, ~ In r rs -> pend (enqueue_all t rs q) r = pend q r) /\
+  (forall t rs q, one_pending q -> one_pending (enqueue_all t rs q)) /\
+  (forall p q, one_pending (p :: q) -> one_pending q).
+Proof.
+  exact (conj pend_enqueue (conj enqueue_all_woken (conj enqueue_all_keeps
+          (conj one_pending_enqueue_all one_pending_pop)))).
+Qed.
+
 (* ---- non-vacuity: the hypotheses are met and the model computes --------------------------- *)
 (* the two witness histories on the repaired model: stack restored, StopStream after the failure *)
 Example witnesses_on_patched_model :
@@ -176,6 +193,18 @@ Example cond_program_runs :
   = [Ret VNone; Ret VHang; Ret VNone; Ret VNone; Ret VNone; Ret VNone; Ret VNone; Ret (VStr 2); Ret VNone].
 Proof. vm_compute. reflexivity. Qed.
 
+(* pause(); resume() while the first wake-up is still queued: ONE pending wake-up, the routine
+   resumes once per yield (times 0, 1, 2), not on two interleaved schedules *)
+Example resume_replaces_pending_wakeup :
+  let defs := [mkDef Gen false [AYield (VInt 1); AYield (VInt 1); AYield (VStr 0)]] in
+  let r := run patched defs 10 [OCall (CPlay 0); OCall (CPause 0); OCall (CResume 0); OTick; OTick; OTick; OTick]
+               (init_world defs []) in
+  map (fun p => (fst p, main_secs (snd p), queue (snd p))) (snd r)
+  = [(Ret VNone, 0%Z, [(0%Z, 0%nat)]); (Ret VNone, 0%Z, [(0%Z, 0%nat)]); (Ret VNone, 0%Z, [(0%Z, 0%nat)]);
+     (Ret (VInt 1), 0%Z, [(1%Z, 0%nat)]); (Ret (VInt 1), 1%Z, [(2%Z, 0%nat)]); (Ret (VStr 0), 2%Z, []);
+     (Ret VNone, 2%Z, [])].
+Proof. vm_compute. reflexivity. Qed.
+
 (* done_is_absorbing_until_reset / paused_until_resume: hypotheses satisfiable *)
 Example absorbing_hypotheses_met :
   let defs := [mkDef Gen false [AYield (VInt 1)]; mkDef Gen false [ACall (CStop 0) true; ACall (CNext 0 VNone) true]] in
@@ -187,3 +216,4 @@ Proof. vm_compute. split; [| reflexivity]. eexists. split; [reflexivity | split;
 Print Assumptions thread_stack_restored.
 Print Assumptions done_is_absorbing_until_reset.
 Print Assumptions cond_resume_exactly_once_after_signal_partial.
+Print Assumptions one_pending_wakeup_per_routine.
